@@ -108,15 +108,17 @@ def run(chk):
     try:
         import pandas as pd
         from data_algebra.data_ops import descr
-        for _ in range(20 if chk.tier == "quick" else 200):
+        for _ in range(60 if chk.tier == "quick" else 400):
             f, g = gen(rng, False)
-            if not f or not all(isinstance(x, int) for x in f + g):
+            if not f:
                 continue
-            d = pd.DataFrame({"f": f, "g": g})
-            r = (descr(d=d).extend({"c": "f.co_equalizer(g)"})).transform(d)
-            chk.count(("pipe", tuple(f), tuple(g)), nontrivial=len(f) >= 2)
-            if list(r["c"]) != ref_labels(f, g):
-                chk.impl_violation("co_equalizer in a pipeline differs from the component minimum", {"kind": "impl-violation", "via": "pipeline", "f": f, "g": g, "observed": list(r["c"]), "expected": ref_labels(f, g)}, {"op": "pipeline"})
+            d = pd.DataFrame({"f": f, "g": g})              # int, string and float vertices alike
+            for text in ("f.co_equalizer(g)", "connected_components(f, g)"):
+                r = (descr(d=d).extend({"c": text})).transform(d)
+                chk.count(("pipe", text, tuple(f), tuple(g)), nontrivial=len(f) >= 2)
+                if list(r["c"]) != ref_labels(f, g):
+                    chk.impl_violation(f"{text} in a pipeline differs from the component minimum",
+                                       {"kind": "impl-violation", "via": "pipeline", "expr": text, "f": f, "g": g, "observed": list(r["c"]), "expected": ref_labels(f, g)}, {"op": "pipeline"})
     except Exception as e:
         chk.cov["oracle"]["pipeline_use"] = "skipped: %s" % type(e).__name__
     if os.path.exists(os.path.join(lib.COQ, "theories/Model/ConnCompCases.vo")):
